@@ -127,6 +127,8 @@ def op_text(op):
         return " ".join([k, str(int(op[1]))] + [hx(t) for t in op[2]])
     if k == "graph":
         return " ".join(["graph"] + [hx(t) for t in op[1]])
+    if k in ("stageadd", "stagerm"):
+        return " ".join([k] + [hx(t) for t in op[1]])
     if k == "setcmd":
         return "setcmd %s %s" % (hx(op[1]), hx(op[2]))
     if k == "write":
@@ -698,6 +700,8 @@ def apply_op(proj, op, mstep, b3):
         r["lines"] = lines
     elif k == "graph":
         rc, so, se = proj.dud(["graph"] + targets(op[1]))
+    elif k in ("stageadd", "stagerm"):
+        rc, so, se = proj.dud(["stage", "add" if k == "stageadd" else "remove"] + targets(op[1]))
     elif k in ("relink", "corrupt", "rmobj") and not mstep.get("x"):
         rc, se = 0, b""
         r["lines"].append("harness: `%s` skipped, the model names no object" % k)
@@ -812,8 +816,8 @@ def run_case(args):
             proj.write_stage(sp, st)
         proj.write_index()
         out["initial"] = proj.snapshot(b3)
-        for i, op in enumerate(case["ops"]):
-            ms = mtrace[i] if mtrace and i < len(mtrace) else None
+        for i, op in enumerate(list(case["ops"]) + list(case.get("tail_ops", []))):
+            ms = mtrace[i] if mtrace and i < len(mtrace) and i < len(case["ops"]) else None
             before = out["steps"][-1]["snap"] if out["steps"] else out["initial"]
             r = apply_op(proj, op, ms or dict(x=[]), b3)
             snap = proj.snapshot(b3)
